@@ -8,6 +8,7 @@
 //   v4     host 198.51.100.(32h+7)          net 198.51.100.(p<<(8-len))/(24+len)
 //   v6     host 2001:db8::(h<<13|7)         net 2001:db8::(p<<(16-len))/(112+len)
 //   mapped peer ::ffff:198.51.100.(32h+7)   lists in v4 notation
+//   mappedlist peer in v4 notation          lists in IPv4-mapped notation (::ffff:a.b.c.d, /(96+n))
 // a `single` network is written as the bare host address.
 package main
 
@@ -57,6 +58,12 @@ func host(fam string, h int) string {
 }
 
 func network(fam string, n netw) string {
+	if fam == "mappedlist" {
+		if n.Single {
+			return host("mapped", n.P)
+		}
+		return fmt.Sprintf("::ffff:198.51.100.%d/%d", n.P<<(8-n.Len), 96+24+n.Len)
+	}
 	if fam == "v6" {
 		if n.Single {
 			return host("v6", n.P)
